@@ -39,8 +39,9 @@ def extra_tie(tier, rng):
 def oracle(tier, rng, seeds):
     fl, st = effects.history_search(rng, 3 if tier == 'quick' else 40, 40 if tier == 'quick' else 120)
     fl2, st2 = effects.directed_history_search(rng, 90 if tier == 'quick' else 600)
-    fails = [Failure(f['what'], {'history': f['history'], 'mutate_first': f.get('mutate_first', False)}) for f in fl + fl2]
-    st.update(st2)
+    fl4, st4 = effects.warmup_history_search(rng, 120 if tier == 'quick' else 600, 60 if tier == 'quick' else 400)
+    fails = [Failure(f['what'], {'history': f['history'], 'mutate_first': f.get('mutate_first', False)}) for f in fl + fl2 + fl4]
+    st.update(st2); st.update(st4)
     import hashseed
     fl3, st3 = hashseed.check(rng)
     fails += [Failure(f['what'], {'hashseed_call': f['call'], 'hashseeds': f['seeds']}) for f in fl3]
